@@ -60,7 +60,9 @@ class Statistics:
         # TODO: Add DOF
         # http://stats.stackexchange.com/questions/6534/how-do-i-calculate-a-weighted-standard-deviation-in-excel
         if self.weight > 0:
-            return (self.sum2 - self.sum**2 / self.weight) / self.weight
+            # Not `sum**2`: after a scaling (units) the square may leave the float range
+            mean = self.sum / self.weight
+            return self.sum2 / self.weight - mean * mean
         return np.nan
 
     def __add__(self, other: Any) -> Statistics:
